@@ -55,3 +55,16 @@ Definition covariate_values (d : list row) (i c : string) : list Q :=
 Definition routed (d : list row) (observables covariates : list string)
   : list (string * list (list (Q * Q)) * list (Q * Q * Q) * list (list Q)) :=
   map (fun i => (i, map (measurements d i) observables, regimen d i, map (covariate_values d i) covariates)) (ids d).
+
+(* ---------------- row labels ----------------
+   A pandas frame carries a label per row (its index); labels need not be unique (frames glued together with
+   pd.concat repeat them).  chi selects rows with boolean masks, which ignore the labels.  `loc` is the label-based
+   selection (frame.loc[labels]): for every requested label, all rows carrying it. *)
+Definition lframe := list (nat * row).
+Definition rows_of (f : lframe) : list row := map snd f.
+Definition mask_select (p : row -> bool) (f : lframe) : list row := filter p (rows_of f).
+Definition labels_where (p : row -> bool) (f : lframe) : list nat :=
+  map fst (filter (fun lr => p (snd lr)) f).
+Definition loc (f : lframe) (labels : list nat) : list row :=
+  flat_map (fun l => map snd (filter (fun lr => Nat.eqb (fst lr) l) f)) labels.
+Definition label_select (p : row -> bool) (f : lframe) : list row := loc f (labels_where p f).
